@@ -285,6 +285,19 @@ def tr_intersection(tree):
             + '\n  '.join(out) + '\n  ' + chain(body[-1]) + '.\n')
 
 
+def tr_assign_check(tree):
+    """_assign_intersection must be exactly: slice tuples from _intersection_slice_tuples, then one
+    slice assignment (this is what C16/Model.v:assign_intersection transcribes)."""
+    fn = get_func(tree, '_assign_intersection')
+    expect_args(fn, ['lhs_arr', 'rhs_arr', 'offset'])
+    b = body_nodoc(fn)
+    if not (len(b) == 2 and same(b[0], 'lhs_slc, rhs_slc = _intersection_slice_tuples(lhs_arr, rhs_arr, offset)')
+            and same(b[1], 'lhs_arr[lhs_slc] = rhs_arr[rhs_slc]')):
+        fail(fn, '_assign_intersection is no longer `slices; lhs_arr[lhs_slc] = rhs_arr[rhs_slc]`')
+    return ('(* _assign_intersection: lhs_arr[lhs_slc] = rhs_arr[rhs_slc] with the slices above (checked) *)\n'
+            'Definition assign_intersection_is_slice_copy : bool := true.\n')
+
+
 def tr_outer(tree):
     fn = get_func(tree, '_padding_slices_outer')
     expect_args(fn, ['lhs_arr', 'rhs_arr', 'axis', 'offset'])
@@ -672,7 +685,7 @@ def translate(repo=None):
         '',
         'Definition supported_modes : list pmode := [%s].' % '; '.join(PMODE[m] for m in modes),
         '',
-        tr_intersection(tree), tr_outer(tree), tr_inner(tree), tr_apply(tree), tr_offset_check(tree)]
+        tr_intersection(tree), tr_outer(tree), tr_inner(tree), tr_apply(tree), tr_offset_check(tree), tr_assign_check(tree)]
     return '\n'.join(parts)
 
 
